@@ -438,8 +438,26 @@ def publife_pipeline(tier):
         ex += rest[:T["ex"] - len(ex)]
         rnd.shuffle(sim)
         sim = sim[:T["sim"]]
+        # variants in which a publisher's connection is lost in mid-write (CutPubMid) instead of between messages:
+        # the first such loss of a schedule whose handle is open and has not met an outage yet
+        mids = []
+        for x in ex + sim:
+            state = {}
+            for k, st in enumerate(x):
+                if st["op"] == "open_pub":
+                    state[st["id"]] = "up"
+                elif st["op"] in ("finish",):
+                    state[st["id"]] = "finished"
+                elif st["op"] == "cut_pub":
+                    if st["id"] <= 2 and state.get(st["id"]) == "up":
+                        y = [dict(z) for z in x]
+                        y[k] = {"op": "cut_pub_mid", "id": st["id"], "m": 2 + (len(mids) % 2)}
+                        mids.append(y)
+                    break
+            if len(mids) >= T.get("mid", 24):
+                break
         sf = work.path("psl-sched.jsonl")
-        scheds = ex + sim
+        scheds = ex + sim + mids
         with open(sf, "w") as f:
             for i, st in enumerate(scheds):
                 f.write(json.dumps({"id": "psl-%d" % i, "origins": 2, "steps": st}) + "\n")
@@ -463,7 +481,8 @@ def publife_pipeline(tier):
             v["event"] = json.loads(lines[v["line"] - 1]) if v["line"] - 1 < len(lines) else {}
             viols.append(v)
         res.update({"schedules": {"exhaustive": [n_ex, len(ex)], "simulated": [n_sim, len(sim)], "legend": "[generated, used]",
-                                  "with_connection_loss": sum(1 for x in scheds if any(st["op"].startswith("cut") for st in x))},
+                                  "with_connection_loss": sum(1 for x in scheds if any(st["op"].startswith("cut") for st in x)),
+                                  "with_a_loss_in_mid_write": len(mids)},
                     "runs": summ["runs"], "events": summ["events"], "deliveries_checked": sum(1 for x in lines if '"ev":"recv"' in x),
                     "viol": cap_diverse(viols), "n_viol": len(viols), "inconclusive": r.notes[:20], "n_inconclusive": len(r.notes),
                     "sample": [json.loads(x) for x in lines[:16]], "wall_s": round(time.time() - t0, 1)})
